@@ -22,6 +22,11 @@ def units():
             U.append({"name": "common.psf_strlcpy_crlf.src%d.dst%d" % (ns, nd), "props": ["C17", "C12"], "harness": "strlcpy_crlf.harness.c", "entry": "h_strlcpy_crlf", "dfcc": False,
                       "function": "common.c:psf_strlcpy_crlf", "timeout": 600, "cbmc_flags": ["--object-bits", "9", "--unwind", "12"], "defines": ["-DNSRC=%d" % ns, "-DNDST=%d" % nd],
                       "kind": "bounded(source %d bytes, destination %d bytes, exactly sized; contents symbolic)" % (ns, nd), "trusted": []})
+    for nm, fn, d in (("psf_get_cues", "psf_get_cues", "U_GET"), ("psf_cues_dup", "psf_cues_dup", "U_DUP")):
+        U.append({"name": "common." + nm, "props": ["C17", "C12", "C09"], "harness": "cues.harness.c", "entry": "h_cues", "enforce": fn,
+                  "function": "common.c:" + fn, "defines": ["-D" + d], "timeout": 600, "cbmc_flags": ["--object-bits", "9"], "backend": "kissat",
+                  "replace": (["psf_cues_alloc"] if d == "U_DUP" else []),
+                  "trusted": ["E1 memcpy model (both ranges asserted for the symbolic length; destination then unconstrained)", "CBMC calloc never fails"]})
     return U
 
 
